@@ -92,8 +92,16 @@ func applyApplyDelta(base, delta []byte) res {
 
 // applyReader drives the streaming applier. deltaKind selects how the delta
 // bytes are served, bufSize the size of the Read calls on the result.
+func applyReaderName(deltaKind string, bufSize int) string {
+	return fmt.Sprintf("ReaderFromDelta[%s,buf=%d]", deltaKind, bufSize)
+}
+
+func packfileName(kind string, withFs, byOffset bool) string {
+	return fmt.Sprintf("Packfile[%s,fs=%v,byOffset=%v]", kind, withFs, byOffset)
+}
+
 func applyReader(base, delta []byte, deltaKind string, bufSize int) res {
-	name := fmt.Sprintf("ReaderFromDelta[%s,buf=%d]", deltaKind, bufSize)
+	name := applyReaderName(deltaKind, bufSize)
 	return catchRes(name, func(r *res) {
 		var dr io.Reader = bytes.NewReader(delta)
 		switch deltaKind {
@@ -250,7 +258,7 @@ func buildIdx(bp builtPack, base, delta []byte) (*idxfile.MemoryIndex, plumbing.
 
 // applyPackfile reads the delta entry through packfile.Packfile (buffer applier via ApplyDelta).
 func applyPackfile(bp builtPack, base, delta []byte, kind string, withFs, byOffset bool) res {
-	name := fmt.Sprintf("Packfile[%s,fs=%v,byOffset=%v]", kind, withFs, byOffset)
+	name := packfileName(kind, withFs, byOffset)
 	return catchRes(name, func(r *res) {
 		idx, did, err := buildIdx(bp, base, delta)
 		if err != nil {
